@@ -65,6 +65,7 @@ type FuncCtx struct {
 	siteSeq    int
 	siteSyms   map[string]Term
 	uninterp   map[string][]Term
+	ufDecls    map[string]string
 }
 
 type CutInfo struct {
